@@ -114,6 +114,23 @@ PROPS["C09"] = {
     "explanation": "",
 }
 
+PROPS["C07"] = {
+    "engines": ["S"],
+    "bounds": [],
+    "outside_bounds": [],
+    "stubs": [],
+    "assumptions": [],
+    "explanation": "",
+}
+PROPS["C13"] = {
+    "engines": ["S"],
+    "bounds": [],
+    "outside_bounds": [],
+    "stubs": [],
+    "assumptions": [],
+    "explanation": "",
+}
+
 HOOK_COMMITS = ["3b45d39", "83997c5"]
 
 # Every property that has no entry in PROPS is listed with its reason.
